@@ -108,7 +108,7 @@ func lastSeg(p string) string {
 func freshValue() any { return &ttlv.Value{} }
 
 func runC04(c *vlib.Check) {
-	c.Rule = "(1) the C01 message space (rich baselines + every single-site deviation, 27 operations x 2 directions x 5 versions) x {XML, JSON}; (2) one-item sweeps: every Unicode scalar value the format can carry as a " +
+	c.Rule = "(1) the C01 message space (rich baselines + every single-site deviation, 27 operations x 2 directions x 5 versions) x {XML, JSON}, repeated in a fresh child process that first uses every message type at version 1.4; (2) one-item sweeps: every Unicode scalar value the format can carry as a " +
 		"one-character text string (quick: all < U+0800 plus class boundaries; thorough: all), every registered and three unregistered values of every enumeration, masks {0, every single bit, every pair of bits, all ones} " +
 		"for both mask types, long/big integers around 2^52/2^63/2^64, dates at years 1 and 9999; (3) every request/response of the 410 OASIS vector files whose operations are implemented, " +
 		"decoded and re-encoded in XML and compared element by element with the vector. distinct = distinct documents"
@@ -120,6 +120,7 @@ func runC04(c *vlib.Check) {
 	for _, op := range msg.Operations() {
 		jobs = append(jobs, c01job{op, false}, c01job{op, true})
 	}
+	warmFirstUse(jobs)
 	vlib.Parallel(len(jobs), 0, func(i int) {
 		n := 0
 		msg.Enumerate(jobs[i].op, jobs[i].resp, 1, func(cs msg.Case) {
@@ -138,11 +139,16 @@ func runC04(c *vlib.Check) {
 			c04Value(c, e, "message", cs.Name, cs.Msg, func() any { return reflect.New(reflect.TypeOf(cs.Msg).Elem()).Interface() })
 		}
 	})
+	if vlib.History() != "" { // a child process repeats part (1) only (see RunHistories)
+		c.Exhaustive = true
+		return
+	}
 	// (2) sweeps
 	c04Sweeps(c)
 	// (3) vectors
 	c04Vectors(c)
 	c.Exhaustive = true
+	c.RunHistories(firstUseHistories(c)[:1])
 }
 
 func isXMLChar(r rune) bool {
